@@ -259,6 +259,11 @@ class Check:
                 if eng == "io":
                     ops = narrow_io(r, body)
                     full = w.run("exec", exec_kv, ops)
+                    if result_class(full) != cls:
+                        # narrowing to the single input did not reproduce the failure: keep the whole batch op
+                        ops = list(body or [])
+                        full = w.run("exec", exec_kv, ops)
+                    full.ops = list(ops)
 
                 refw = None
                 if self.spec.get("reference_config"):
